@@ -146,7 +146,7 @@ def main(a):
                 ev = {"engine": "verus-z3", "unit": u.name, "status": r["status"], "obligations": r["obligations"],
                       "discharged": r["discharged"], "functions_verified": r.get("functions", []),
                       "wall_s": r.get("wall_s"), "solver_s": r.get("solver_s"), "rewrites": r.get("rewrites"),
-                      "assumed": r.get("assumed"), "canaries": r.get("canaries"), "extraction": r.get("extraction")}
+                      "assumed": r.get("assumed"), "assumed_names": r.get("assumed_names"), "canaries": r.get("canaries"), "extraction": r.get("extraction")}
                 units_ev.append(ev)
                 if r.get("samples"):
                     samples.extend(r["samples"][:2])
@@ -322,9 +322,43 @@ def main(a):
         coverage["explanation"] = ("NOT all obligations discharged in this run (%d of %d; violations=%d undecided=%d "
                                    "known-findings=%d). " % (discharged, obligations, len(violations), len(undecided),
                                                              len(known_hits))) + coverage["explanation"]
+    # measured list of what this run left unchecked (names, not counts)
+    assumptions = list(meta.get("assumptions", []))
+    a_repo, a_stand, a_ax, a_un = set(), set(), set(), set()
+    ran_units = {x.get("unit") for x in units_ev if x.get("engine") == "verus"}
+    for x in units_ev:
+        an = x.get("assumed_names") or {}
+        a_repo.update("%s (in %s)" % (n, x.get("unit")) for n in an.get("repo_contracts_assumed_in_this_unit", []))
+        a_stand.update(an.get("trusted_standin_fns", []))
+        a_ax.update(an.get("axioms_and_assumed_specs", []))
+        a_un.update(an.get("uninterpreted_spec_fns", []))
+        for imp in an.get("contracts_imported_from_units", []):
+            if imp not in ran_units:
+                assumptions.append("verus: contracts imported from unit %s are used by %s but %s is not part of this property's run "
+                                   "(it is discharged by the checks of the properties it is registered for)" % (imp, x.get("unit"), imp))
+    if a_repo:
+        assumptions.append("verus: contracts of /repo functions assumed, not proved, in this run's units (discharged by the Kani pairs named in DESIGN A.3): " + ", ".join(sorted(a_repo)))
+    if a_stand:
+        assumptions.append("verus: trusted stand-in functions (tinyvec / core / derive semantics, contract = documented behaviour and panics): " + ", ".join(sorted(a_stand)))
+    if a_ax:
+        assumptions.append("verus: axioms / assumed specifications: " + ", ".join(sorted(a_ax)))
+    if a_un:
+        assumptions.append("verus: uninterpreted specification functions (nothing is known about them beyond their contracts): " + ", ".join(sorted(a_un)))
+    kstubs = set()
+    for x in units_ev:
+        if x.get("engine") == "kani-cbmc":
+            for st in x.get("stubs") or []:
+                kstubs.add(st if isinstance(st, str) else json.dumps(st, sort_keys=True))
+    if kstubs:
+        assumptions.append(("kani: functions replaced by stubs in at least one harness of this run (the stub's contract is what is "
+                            "assumed of them there): " + "; ".join(sorted(kstubs)))[:4000])
+    bounded_units = sorted(x["unit"] for x in units_ev if x.get("kind") == "bounded")
+    if bounded_units:
+        assumptions.append("bounded stand-ins in this run (not counted as proved): " + ", ".join(bounded_units))
+    assumptions = sorted(set(assumptions))
     ev = {
         "property_id": pid, "tier": ("thorough" if tier == "extended" else tier), "seed": seed, "level": level, "coverage": coverage,
-        "assumptions": meta.get("assumptions", []), "wall_s": timer.s(), "violations": len(violations),
+        "assumptions": assumptions, "wall_s": timer.s(), "violations": len(violations),
     }
     write_evidence(pid, ev)
     for l in lines:
